@@ -64,13 +64,15 @@ func main() {
 		line := 1
 		for {
 			data, err := reader.ReadBytes('\n')
+			if len(data) > 0 {
+				apply(cfg, data, line)
+			}
 			if err != nil {
 				if !errors.Is(err, io.EOF) {
 					mlError(cfg, "unable to read input at line %d: %s", line, err)
 				}
 				return
 			}
-			apply(cfg, data, line)
 			line++
 		}
 	} else {
@@ -122,6 +124,7 @@ func apply(cfg config, data []byte, line int) {
 	data, err = ajson.Marshal(result)
 	if err != nil {
 		mlFatal(cfg, "%s preparing JSON: %s", msg, err)
+		return
 	}
 	pPrint("%s\n", data)
 }
